@@ -15,7 +15,7 @@ logging.getLogger('vakt').setLevel(logging.CRITICAL)
 
 CHECKERS = {'KR': RegexChecker, 'KX': StringExactChecker, 'KF': StringFuzzyChecker, 'KU': RulesChecker}
 TAGS = [('<', '>')] * 7 + [('{', '}'), ('[', ']'), ('|', '|'), ('(', ')'), ('«', '»')]
-UIDS = ['a', 'b', 'c', 'd', 'e', 'f', '1', '2', 1, 2, 3, 'uid-7', 'Ü', '', 0]
+UIDS = ['a', 'b', 'c', 'd', 'e', 'f', '1', '2', 1, 2, 3, 'uid-7', 'Ü', '', 0, ('t', 2), ('solo',)]
 
 
 def make_checker(k, cache=None):
@@ -66,6 +66,33 @@ def decide_line(case, objs, inq_obj, ans='AI', fail_at=None, order=None):
     return 'DECIDE %s %s %s' % (case['k'], a, proto.enc_inquiry_obj(inq_obj))
 
 
+def _val_len(toks, i):
+    """number of tokens of the protocol value starting at toks[i]"""
+    t = toks[i]
+    if t[0] in 'LU' and t[1:].isdigit():
+        n, j = int(t[1:]), i + 1
+        for _ in range(n):
+            j += _val_len(toks, j)
+        return j - i
+    if t[0] == 'M' and t[1:].isdigit():
+        n, j = int(t[1:]), i + 1
+        for _ in range(n):
+            j += 1                      # key
+            j += _val_len(toks, j)
+        return j - i
+    return 1
+
+
+def _take_vals(toks, n):
+    """the first n protocol values of toks (each joined back into one string), and the rest"""
+    out, i = [], 0
+    for _ in range(n):
+        k = _val_len(toks, i)
+        out.append(' '.join(toks[i:i + k]))
+        i += k
+    return out, toks[i:]
+
+
 def parse_decide(out):
     """'ok T audit T cand n uid.. dec n uid..' -> dict"""
     if out in ('unmodelled', 'bad-op') or out is None:
@@ -76,13 +103,11 @@ def parse_decide(out):
         res['audit'] = {'allow': toks[3] == 'T', 'rest': ' '.join(toks[4:])}
         rest = toks[4:]
         assert rest[0] == 'cand'
-        # uid values are single tokens for the uid universe used here (str / int)
         n = int(rest[1])
-        res['audit']['candidates'] = rest[2:2 + n]
-        rest = rest[2 + n:]
+        res['audit']['candidates'], rest = _take_vals(rest[2:], n)
         assert rest[0] == 'dec'
         m = int(rest[1])
-        res['audit']['deciders'] = rest[2:2 + m]
+        res['audit']['deciders'], _ = _take_vals(rest[2:], m)
     return res
 
 
